@@ -29,6 +29,8 @@ MSA = 'merge_ska_array::MergeSkaArray'
 
 
 def run(facts, chk, tier, only=None):
+    from . import cli_parsers
+    cli_parsers.check_frequency_options(facts, chk, 'C06.opt')
     from . import cli_e2e
     # the subcommand through ska::main() itself (argument parser replaced by a constructed Args value): hand-over of CLI values, width dispatch
     chk.guard('C06.cli', 'C06.cli:run0', lambda: cli_e2e.check_align(facts, chk, 'C06.cli', tier))
